@@ -103,14 +103,9 @@ func tokenizerWindowRules(c *Ctx, p *core.Prog) {
 	if !c.R.Anchor(ts != nil, "v2.tokenizeStream") {
 		return
 	}
-	var read *ssa.Call
-	for _, call := range core.CallsIn(ts) {
-		if n := core.StaticCalleeName(call.Common()); n == "io.ReadFull" || n == "io.ReadAtLeast" {
-			read, _ = call.(*ssa.Call)
-		}
-	}
+	read := windowRead(ts)
 	if read == nil {
-		c.R.Fail("R08.3", "tokenizeStream: reader call", p.Pos(ts.Pos()), "no io.ReadFull call")
+		c.R.Fail("R08.3", "tokenizeStream: reader call", p.Pos(ts.Pos()), "no call that fills the read window from the reader")
 		return
 	}
 	checkCarryOver(c, p, ts, read)
